@@ -318,6 +318,14 @@ static void run_typed(const Plan &p, Result &res) {
                 std::string nl;
                 if (fmt == MM_SPARSE && got == 3) nl = cm::fmt("%ld %ld %ld\n", x[0], x[1], x[2] + extra);
                 else if (fmt == MM_DENSE && got >= 2 && x[1] > 0) nl = cm::fmt("%ld %ld\n", x[0] + extra, x[1]);
+                // other size fields moved by one in either direction: the reader may accept or reject, but never return an invalid matrix
+                if (got >= 2) for (int var = 0; var < 4; ++var) {
+                    long y[3] = { x[0], x[1], x[2] }; y[var / 2] += (var % 2) ? 1 : -1; if (y[var / 2] < 0) continue;
+                    std::string l2 = fmt == MM_SPARSE ? cm::fmt("%ld %ld %ld\n", y[0], y[1], y[2]) : cm::fmt("%ld %ld\n", y[0], y[1]);
+                    bytes d2(img.begin(), img.begin() + beg); d2.insert(d2.end(), l2.begin(), l2.end()); d2.insert(d2.end(), img.begin() + end, img.end());
+                    check_damaged(d2, false, "altered-size-line", "size line replaced by: " + l2.substr(0, l2.size() - 1));
+                    res.faults["size_field_off_by_one"]++;
+                }
                 if (!nl.empty()) {
                     bytes d(img.begin(), img.begin() + beg); d.insert(d.end(), nl.begin(), nl.end()); d.insert(d.end(), img.begin() + end, img.end());
                     long sa = a, sb = b; if (fmt == MM_DENSE) { a = -1; b = -1; }
